@@ -68,6 +68,14 @@ class Ctx:
             return Explorer(self.ix, self.pta, **kw)
         from .rules import caches
         cold = caches.all_cold_fields(self)
+        if kw.get('inline') is None:
+            # default: look through glue (functions that are no anchors themselves but lead to one)
+            from .rules import common as _C
+            try:
+                _roles = _C.roles_of(self)
+                kw['inline'] = lambda f, st, _r=_roles: _r.is_glue(f)
+            except Exception:
+                pass
         ex = Explorer(self.ix, self.pta, cold_fields=cold, on_cold_read=self._caches_used.add,
                       cold_invalidators=getattr(self, '_cold_invalidators', {}), **kw)
         # what was analysed: functions explored, paths enumerated, events on them (reported in the evidence)
